@@ -923,12 +923,18 @@ def run(chk, replay=None):
         chk.notes += broken[:5]
     return chk.finish(
         level="proof",
-        checker_cmd="lake build Vita.C08.Props c08_driver && lake env lean <#print axioms for every theorem>",
-        rule="one evaluation = one (program or team, training set, queries) triple: the compiled model object answers all "
-             "rows, the Lean model (hardware doubles) must give the same labels / confidence bits / accuracy / training "
-             "fitness, the Python oracle judges the contract, and a random 12-23 step object history runs under ASan; "
-             "distinct = distinct input lines (discretization probes excluded)",
-        trusted=["Lean 4.33 kernel", "harness/c08_model.cc + this script (canonicalisation, oracle)",
-                 "the copy/assign/move/destroy/serialize clause is checked by the harness under ASan only (no Lean content)",
+        checker_cmd="python3 tools/translate_c08_storage.py && lake build Vita.C08.Props c08_driver && lake env lean <#print axioms for every theorem>",
+        rule="one evaluation = one (program or team, training set, queries) triple, or one ROUTE case (evaluator, validation "
+             "strategy, cache, training + validation rows, queries, what happens to the original individual): the compiled "
+             "model object - constructed directly or obtained through the route - answers all rows, the Lean model (hardware "
+             "doubles; fitness through C05's end-to-end evaluator models) must give the same labels / confidence bits / accuracy "
+             "/ training fitness, the Python oracle judges the contract against the TRAINING data, a random 12-23 step object "
+             "history (cases) or overwrite / move / destroy of the original individual (routes) runs under ASan; the special "
+             "member functions and the lambdify routes are re-translated from the clang AST and the lifetime obligations "
+             "re-proved; distinct = distinct input lines (discretization probes excluded)",
+        trusted=["Lean 4.33 kernel", "harness/c08_model.cc, harness/c08_routes.cc + this script (canonicalisation, oracle)",
+                 "tools/translate_c08_storage.py (clang-14 AST -> table of special member functions / routes; C++ rules for "
+                 "implicit members applied by the translator)",
                  "glibc libm (atan, exp, fma, round) shared by the harness and the Lean runtime",
+                 "ConfLaws / DiscLaws: IEEE-754 and libm facts as hypotheses of the _ieee theorems",
                  "the per-member program outputs come from vita's interpreter (C01's subject)"])
